@@ -123,6 +123,7 @@ type walker struct {
 	mute  bool
 	stack []string
 	memo  map[string]*memoEnt
+	rootParams map[types.Object]bool
 }
 
 func (t *translator) pos(p token.Pos) string {
@@ -635,13 +636,7 @@ func (w *walker) call(c *ast.CallExpr) val {
 	return val{}
 }
 
-func (w *walker) isRootParam(o types.Object) bool {
-	g := w.fr
-	for g.parent != nil {
-		g = g.parent
-	}
-	return true && g != nil && o.Parent() != nil && o.Parent() != w.t.l.pkg.Scope()
-}
+func (w *walker) isRootParam(o types.Object) bool { return w.rootParams[o] }
 
 func (w *walker) callVal(fv *funcVal, c *ast.CallExpr) val {
 	switch fv.kind {
@@ -1021,13 +1016,12 @@ func (w *walker) heapCall(op string, c *ast.CallExpr) val {
 		w.fatal(c.Pos(), "unsupported heap.%s", op)
 	}
 	// a loop that calls any of the methods any number of times
-	head := w.join(c.Pos(), "heap", w.s, w.s)
 	if w.s.dead {
 		return val{}
 	}
 	hn := w.r.newNode(w.s.ls)
 	w.tauTo(hn, c.Pos(), "heap")
-	head = st{node: hn, ls: w.s.ls}
+	head := st{node: hn, ls: w.s.ls}
 	for _, mn := range methods {
 		m := lookupMethod(nt, mn)
 		if m == nil {
@@ -1117,12 +1111,6 @@ func (w *walker) inlineDecl(fn *types.Func, recv ast.Expr, recvFrame *frame, arg
 				fr.ptrLocal[po] = true
 				memoable = false
 			}
-			if _, isFn := po.Type().Underlying().(*types.Signature); isFn && w.mute == false {
-				// function-typed parameter without a known value
-				if i < len(fvs) && fvs[i] == nil {
-					fr.binds[po] = &funcVal{kind: "user"}
-				}
-			}
 		}
 	}
 	_ = sig
@@ -1161,7 +1149,9 @@ func (w *walker) inlineDecl(fn *types.Func, recv ast.Expr, recvFrame *frame, arg
 		w.memo[mk] = ent
 	}
 	savedMute := w.mute
-	if topCtors[key] && w.r.Kind != "main" && w.r.Kind != "ctor" {
+	if topCtors[key] && w.r.Kind == "main" {
+		fr.ctorMode = "pub" // emitted into the publication thread up to the first go / Put
+	} else if topCtors[key] {
 		// a constructor called from an ordinary thread: its publication phase works on a fresh
 		// object (modelled once, in the publication thread); the rest runs on this thread
 		fr.ctorMode = "rest"
